@@ -267,6 +267,18 @@ def wave_case(res, case):
         if not np.array_equal(nxt[0], nxt[1]):
             res.violation(f'{key0}/second-cycle', case, f'results of the cycle after s_ppo_to_ppi differ between CPU and GPU path {nl}')
         res.count('cfg_state_transfer')
+    # delays that are not exactly representable in single precision (typical SDF decimals), given in double precision: both code
+    # paths must do the same arithmetic on them (no reference needed: CPU and GPU path are compared bit by bit)
+    dec = np.array(delays, dtype=np.float64, copy=True)
+    for li in range(dec.shape[1]):
+        dec[:, li] = np.where(dec[:, li] > 0, dec[:, li] * 0.13 + 0.0071 * (li + 1), 0.0)
+    sc, _ = run(dl=dec)
+    sg, _ = run(dl=dec, cuda=True)
+    res.evals += 1
+    if not np.array_equal(ports(sc).view(np.uint32) if ports(sc).dtype == np.float32 else ports(sc), ports(sg).view(np.uint32) if ports(sg).dtype == np.float32 else ports(sg)):
+        d = np.argwhere(ports(sc) != ports(sg))[0].tolist()
+        res.violation(f'{key0}/decimal-delays-cpu-gpu', case, f'double-precision decimal delays: CPU and GPU path differ at (row, output, lane) {d}: {ports(sc)[tuple(d)]!r} vs {ports(sg)[tuple(d)]!r} {nl}')
+    res.count('cfg_decimal_delays')
     # delay datasets
     d3 = np.concatenate([delays, delays * 2, wsim.delay_array(nlines, W.zero_fork_delays(c, ['e' if x == 'u' else 'u' for x in case['plan']]))])
     singles = []
@@ -328,7 +340,7 @@ def wave_case(res, case):
 
 
 def finish(agg, tier):
-    need = ['cfg_opt', 'cfg_alloc', 'cfg_perm', 'cfg_sims', 'cfg_dataset', 'cfg_dataset_mixed', 'cfg_twoobjects', 'cfg_twoprop', 'logic_two_objects', 'cfg_abuf', 'cfg_reuse', 'logic_cases']
+    need = ['cfg_opt', 'cfg_alloc', 'cfg_perm', 'cfg_sims', 'cfg_dataset', 'cfg_dataset_mixed', 'cfg_twoobjects', 'cfg_twoprop', 'cfg_decimal_delays', 'logic_two_objects', 'cfg_abuf', 'cfg_reuse', 'logic_cases']
     missing = [k for k in need if not agg.counters.get(k)]
     if missing: raise common.HarnessError(f'vacuity guard: {missing} zero')
     return {}
